@@ -12,7 +12,8 @@ Property theorems only.  Vocabulary (definitions in `Paths/Model.lean`):
 * A *valid payload* is one `stD` accepts.  `Fault` = one local edit of it at a path (`badLeaf`: replace the
   sub-payload by a value the position's type rejects with a plain exception; `missingKey`: delete a required
   key; `extraKeys`: add keys, on a `forbid_extra_keys` converter; `arity`: append elements to a heterogeneous
-  tuple); `inject p0 fs` applies them; `app w cfg T p0 fs` says that `fs` is independent and applicable to
+  tuple or to the payload of a NamedTuple -- a NamedTuple position raises the iterable-level group of the
+  heterogeneous tuple of its field types, both converter classes); `inject p0 fs` applies them; `app w cfg T p0 fs` says that `fs` is independent and applicable to
   `p0` at type `T` (no two faults at one place, none below a replaced value or a deleted key, a rejecting
   value really is rejected — there is none for `str`/`bool`/`Any` —, class positions on a `Converter` with the
   dict strategy: `BaseConverter` and the tuple strategy raise no class-level groups).  A class-union position
